@@ -54,8 +54,9 @@ def scenarios(tier):
     # quality / poly-A / NextSeq figures and multi-round adapters
     for layout in ("single", "paired"):
         for extra in (dict(q="10,10"), dict(nextseq=12), dict(q="12", nextseq=10), dict(poly_a=True), dict(q="10", poly_a=True, times=2),
-                      dict(Q="15,5", q="5"), dict(action="none"), dict(action="mask", times=2)):
-            if "Q" in extra and layout == "single":
+                      dict(Q="15,5", q="5"), dict(action="none"), dict(action="mask", times=2), dict(cut=[0]), dict(cut=[0, -1]),
+                      dict(cut=[1], cut2=[0]), dict(cut=[3, -2], q="10")):
+            if ("Q" in extra or "cut2" in extra) and layout == "single":
                 continue
             S.append(dict(layout=layout, demux=None, keys=["m", "max_n"], final=None, redirect=True, report="full", extra=extra))
     # the same figures with two cores (statistics merged across workers), default schedule of the virtual scheduler
